@@ -182,13 +182,17 @@ func (c *BugCache) EditComment(target entity.CombinedId, message string) (*bug.E
 }
 
 func (c *BugCache) EditCommentRaw(author identity.Interface, unixTime int64, target entity.CombinedId, message string, metadata map[string]string) (*bug.EditCommentOperation, error) {
+	return c.EditCommentWithFilesRaw(author, unixTime, target, message, nil, metadata)
+}
+
+func (c *BugCache) EditCommentWithFilesRaw(author identity.Interface, unixTime int64, target entity.CombinedId, message string, files []repository.Hash, metadata map[string]string) (*bug.EditCommentOperation, error) {
 	comment, err := c.Snapshot().SearchComment(target)
 	if err != nil {
 		return nil, err
 	}
 
 	c.mu.Lock()
-	commentId, op, err := bug.EditComment(c.entity, author, unixTime, comment.TargetId(), message, nil, metadata)
+	commentId, op, err := bug.EditComment(c.entity, author, unixTime, comment.TargetId(), message, files, metadata)
 	c.mu.Unlock()
 	if err != nil {
 		return nil, err
